@@ -31,14 +31,14 @@ func NewRNG(seed uint64, run int64) *rand.Rand {
 func pick[T any](r *rand.Rand, xs []T) T { return xs[r.IntN(len(xs))] }
 
 type generator struct {
-	r        *rand.Rand
-	sw       Swarm
-	markets  []uint32
-	exch     []string
-	reads    []int64 // pool of read instants
-	used     map[uint64]bool
-	cellT    map[int][]int64 // times generated so far per cell (generation order)
-	lastAdj  uint64
+	r       *rand.Rand
+	sw      Swarm
+	markets []uint32
+	exch    []string
+	reads   []int64 // pool of read instants
+	used    map[uint64]bool
+	cellT   map[int][]int64 // times generated so far per cell (generation order)
+	lastAdj uint64
 }
 
 // Generate draws the swarm configuration and the complete operation lists of one run.
